@@ -1059,16 +1059,19 @@ package diam
 //@ # then hands back that connection's writer without waiting for the loop.
 //@ func NewConn(rw, addr, handler, dp) (c, err)
 //@   property C08
+//@   modifies
 //@   requires rw != nil
 //@   ensures [C08] hands_back_the_writer_of_a_new_connection: err == nil ==> c != nil && typeis(c, *response) && fresh(c.(*response))
 //@ end
 //@ func dial(srv, timeout) (c, err)
 //@   property C08
+//@   modifies
 //@   requires srv != nil
 //@   ensures [C08] hands_back_the_writer_of_a_new_connection: err == nil ==> c != nil && typeis(c, *response) && fresh(c.(*response))
 //@ end
 //@ func dialTLS(srv, certFile, keyFile, timeout) (c, err)
 //@   property C08
+//@   modifies
 //@   requires srv != nil
 //@   ensures [C08] hands_back_the_writer_of_a_new_connection: err == nil ==> c != nil && typeis(c, *response) && fresh(c.(*response))
 //@ end
@@ -1085,5 +1088,20 @@ package diam
 //@ func TLSConfigClone(cfg) (r)
 //@   property C08
 //@   modifies
-//@   ensures [C08] a_copy: cfg != nil ==> r != nil
+//@   ensures [C08] a_copy: cfg != nil ==> r != nil && fresh(r)
+//@ end
+//@ func DialExt(network, addr, handler, dp, timeout, laddr) (c, err)
+//@   property C08
+//@   modifies
+//@   ensures [C08] hands_back_the_writer_of_a_new_connection: err == nil ==> c != nil && typeis(c, *response) && fresh(c.(*response))
+//@ end
+//@ func DialTLSExt(network, addr, certFile, keyFile, handler, dp, timeout, laddr) (c, err)
+//@   property C08
+//@   modifies
+//@   ensures [C08] hands_back_the_writer_of_a_new_connection: err == nil ==> c != nil && typeis(c, *response) && fresh(c.(*response))
+//@ end
+//@ func DialNetworkBind(network, laddr, raddr, handler, dp) (c, err)
+//@   property C08
+//@   modifies
+//@   ensures [C08] hands_back_the_writer_of_a_new_connection: err == nil ==> c != nil && typeis(c, *response) && fresh(c.(*response))
 //@ end
